@@ -107,6 +107,8 @@ func c02Check(r *vhlib.Run, m *vhlib.Model, data []byte, kind string) {
 
 func runC02(r *vhlib.Run) {
 	rng := r.Rng
+	// the brotli sliding window against its implementation-level model (Window/DictBr.v)
+	wdictbr(r)
 	dict := brDict(r)
 	m := vhlib.StartModel()
 	defer m.Close()
